@@ -94,7 +94,7 @@ class Run:
         out = self.tlc(m["spec"] + ".tla", m["cfg"], workers=workers, xmx=m.get("xmx", "6g"),
                        timeout=m.get("timeout", 1800), env=m.get("env"))
         ok = "Model checking completed. No error has been found." in out
-        mm = re.search(r"(\d+) states generated, (\d+) distinct states found", out)
+        mm = re.search(r"^(\d+) states generated, (\d+) distinct states found", out, re.M)
         if not ok or not mm:
             raise Infra("model checking of %s/%s failed:\n%s" % (m["spec"], m["cfg"], out[-3000:]))
         r = {"spec": m["spec"], "cfg": m["cfg"], "generated": int(mm.group(1)), "distinct": int(mm.group(2)),
@@ -128,7 +128,7 @@ class Run:
         pieces, cur, size, n, first = [], None, 0, 0, 0
         with open(path, "rb") as f:
             for line in f:
-                if cur is None or (size > max_bytes and b'"rs":true' in line):
+                if cur is None or (size > max_bytes and b'"rs":1' in line):
                     if cur:
                         cur.close()
                     pp = "%s.p%d" % (path, len(pieces))
@@ -147,7 +147,7 @@ class Run:
         if "Model checking completed. No error has been found." not in out:
             raise Infra("TLC failed validating %s with %s:\n%s" % (piece, spec, out[-3000:]))
         rej = [int(x) for x in re.findall(r'"REJECT\|(\d+)"', out)]
-        mm = re.search(r"(\d+) states generated", out)
+        mm = re.search(r"^(\d+) states generated, (\d+) distinct", out, re.M)
         return rej, (int(mm.group(1)) - 1 if mm else 0)
 
     def lines(self, piece, nums):
